@@ -79,6 +79,7 @@ EDGE = {  # exactly on the boundary: the bin passes
     "log2=-5": ("log2", -5.0),
     "log2=5": ("log2", 5.0),
     "spread=1": ("spread", 1.0),
+    "spread=0": ("spread", 0.0),  # the other end: a bin every normal agreed on, among bins with real spread
     "depth>0": ("depth", 1e-9),
     "gc=0.3": ("gc", 0.3),
     "gc=0.7": ("gc", 0.7),
